@@ -4,11 +4,13 @@ import (
 	"encoding/json"
 	"fmt"
 	"math/rand"
+	"runtime"
 	"strings"
 	"sync"
 	"sync/atomic"
 	"time"
 
+	"github.com/facebookincubator/dns/dnsrocks/db"
 	"github.com/facebookincubator/dns/dnsrocks/dnsserver"
 
 	"verif/internal/harness"
@@ -22,7 +24,7 @@ func init() {
 }
 
 func runC14(r *report.Run) {
-	r.SetRule("race-detector build, child process per run: 16 query workers (cache on, every stamped query kind, one query in six with a question type the DNS library has no name for, new ones all along the run) x a reloader walking through generations (every other run with a 1 ms reload timeout so that reloads time out while still running; full reloads to new directories/files, partial reloads after a real ApplyDiff on the primary / file replacement, failing reloads: missing path, unreadable, missing validation key) x a ReportBackendStats ticker x a WatchDBAndReload watcher with a ReloadChan consumer x (in part of the runs) a WatchControlDirAndReload watcher through which the successful reloads are requested by renaming reload/switchdb files into the control directory x (RocksDB, default reload timeout) a storm of several hundred back-to-back catch-ups with nothing to catch up under 8 query workers, followed by one partial reload on the idle server that has to complete (failure + goroutines blocked in the storage package at identical frames in two dumps = violation) x shutdown while queries are parked after reader acquisition (verif hook) and resumed afterwards; plus the production wiring (NewFBDNSDB with a 1 s periodic reload) shut down while a reload is parked in progress and the next tick is already pending; on CDB, RocksDB v1 and v2; repeated. Oracle: zero race-detector reports (deduplicated by entry-point pair), no panic/fatal error, every worker completes its fixed operation count before a generous watchdog; a stand-still of the progress counters (queries, reloads, stats reports) for 20 s is examined structurally: a deadlock is reported only when in three goroutine dumps 2 s apart every goroutine inside the serving code is blocked acquiring a sync lock (at least a waiting writer and a waiting reader) or idle, none runs or sits in a system/cgo call, and the blocked stacks are identical. non-trivial = run in which queries and reloads really overlapped (measured: queries completed while a reload was in progress); distinct by (backend, repeat)")
+	r.SetRule("race-detector build, child process per run: 16 query workers (cache on, every stamped query kind, one query in six with a question type the DNS library has no name for, new ones all along the run) x a reloader walking through generations (every other run with a 1 ms reload timeout so that reloads time out while still running; full reloads to new directories/files, partial reloads after a real ApplyDiff on the primary / file replacement, failing reloads: missing path, unreadable, missing validation key) x a ReportBackendStats ticker x a WatchDBAndReload watcher with a ReloadChan consumer x (in part of the runs) a WatchControlDirAndReload watcher through which the successful reloads are requested by renaming reload/switchdb files into the control directory x (RocksDB, default reload timeout) a storm of several hundred back-to-back catch-ups with nothing to catch up under 8 query workers, followed by one partial reload on the idle server that has to complete (failure + goroutines blocked in the storage package at identical frames in two dumps = violation) x (CDB, default reload timeout) a storm of back-to-back full reloads alternating between two files under 4x NumCPU acquire/lookup/release workers x shutdown while queries are parked after reader acquisition (verif hook) and resumed afterwards; plus the production wiring (NewFBDNSDB with a 1 s periodic reload) shut down while a reload is parked in progress and the next tick is already pending; on CDB, RocksDB v1 and v2; repeated. Oracle: zero race-detector reports (deduplicated by entry-point pair), no panic/fatal error, every worker completes its fixed operation count before a generous watchdog; a stand-still of the progress counters (queries, reloads, stats reports) for 20 s is examined structurally: a deadlock is reported only when in three goroutine dumps 2 s apart every goroutine inside the serving code is blocked acquiring a sync lock (at least a waiting writer and a waiting reader) or idle, none runs or sits in a system/cgo call, and the blocked stacks are identical. non-trivial = run in which queries and reloads really overlapped (measured: queries completed while a reload was in progress); distinct by (backend, repeat)")
 	r.Assume("GORACE=halt_on_error=0 with log files; reports are counted from the logs, never from exit codes; a watchdog firing without a crash is inconclusive")
 	repeats := r.Pick(2, 5)
 	gens := r.Pick(25, 120)
@@ -87,7 +89,7 @@ func runC14(r *report.Run) {
 			r.Violation("", fmt.Sprintf("%s run %d: process died (exit %d) at step %q:\n%s", o.b.Name, o.rep, res.ExitCode, last, firstLines(res.Stderr, 14)), map[string]interface{}{"backend": o.b.Name, "journal_last": last})
 			continue
 		}
-		for _, k := range []string{"reload_timeouts", "queries", "reloads", "queries_during_reload", "stats_reports", "parked_at_shutdown", "watcher_reloads", "control_file_reloads", "control_files_not_consumed", "noop_partial_reloads_under_queries"} {
+		for _, k := range []string{"reload_timeouts", "queries", "reloads", "queries_during_reload", "stats_reports", "parked_at_shutdown", "watcher_reloads", "control_file_reloads", "control_files_not_consumed", "noop_partial_reloads_under_queries", "switch_storm_full_reloads"} {
 			if n, ok := res.Summary[k].(float64); ok {
 				r.Count(k, int64(n))
 			}
@@ -330,6 +332,55 @@ func c14Worker(args []string) int {
 		}
 		atomic.AddInt64(&reloadSteps, 1)
 	}
+	// switch storm (CDB, runs with the default reload timeout): two files, full reloads alternating between them back to
+	// back, while 4x NumCPU workers acquire a reader, look one name up and release it. A reader handed out for a file
+	// that is unmapped under it crashes the process (the parent reports the death of the child).
+	switches := 0
+	if b.Driver == "cdb" && opt.ReloadTimeout == 0 {
+		journal("%s switch storm", bname)
+		pa, ea := l.compileGen(l.newGen(), true)
+		pb, eb := l.compileGen(l.newGen(), true)
+		if ea == nil && eb == nil {
+			old := runtime.GOMAXPROCS(4 * runtime.NumCPU())
+			var stormStop int32
+			var swg sync.WaitGroup
+			name := []byte("\x07example\x03com\x00")
+			for c := 0; c < 4*runtime.NumCPU(); c++ {
+				swg.Add(1)
+				go func() {
+					defer swg.Done()
+					for atomic.LoadInt32(&stormStop) == 0 {
+						rd, err := h.AcquireReader()
+						if err != nil {
+							continue
+						}
+						rd.IsAuthoritative(name, &db.Location{})
+						rd.Close()
+						atomic.AddInt64(&queries, 1)
+					}
+				}()
+			}
+			for i := 0; i < 60*gens; i++ {
+				p := pa
+				if i%2 == 1 {
+					p = pb
+				}
+				if err := h.Reload(*dnsserver.NewFullReloadSignal(p)); err != nil {
+					fmt.Println("switch storm reload:", err)
+					break
+				}
+				switches++
+				atomic.AddInt64(&reloadSteps, 1)
+			}
+			atomic.StoreInt32(&stormStop, 1)
+			swg.Wait()
+			runtime.GOMAXPROCS(old)
+			l.path = pa
+			if switches%2 == 0 {
+				l.path = pb
+			}
+		}
+	}
 	// shutdown while queries are parked right after reader acquisition
 	journal("%s shutdown with parked queries", bname)
 	var parks []interface{ Release() }
@@ -370,7 +421,7 @@ func c14Worker(args []string) int {
 	summary(map[string]interface{}{"queries": atomic.LoadInt64(&queries), "reloads": nreload, "queries_during_reload": atomic.LoadInt64(&during),
 		"stats_reports": atomic.LoadInt64(&statsReports), "reload_timeouts": timeouts, "parked_at_shutdown": parked, "watcher_reloads": atomic.LoadInt64(&watcherReloads),
 		"panics": atomic.LoadInt64(&panics), "first_panic": fp, "control_file_reloads": ctrlReloads, "control_files_not_consumed": ctrlStuck,
-		"noop_partial_reloads_under_queries": noopReloads, "storm_error": stormErr, "idle_reload_error": idleErr, "stuck_storage_goroutines": stuck})
+		"noop_partial_reloads_under_queries": noopReloads, "switch_storm_full_reloads": switches, "storm_error": stormErr, "idle_reload_error": idleErr, "stuck_storage_goroutines": stuck})
 	return 0
 }
 
